@@ -9,7 +9,8 @@
 Require Import String.
 Require Import Arith Lia List Bool ZArith QArith Qcanon.
 From TK Require Import Mat_Sums Mat_Core Mat_Qc Mat_EigSelect EigSelect Mat_EigSelect_Tie
-                       Mds_Model Mds_Spec Mds_Proof.
+                       Mds_Model Mds_Spec Mds_Exec Mds_Proof Mds_Proof_Solver Mds_Proof_Qc
+                       Mds_Proof_Isomap Dijkstra_Spec.
 Import ListNotations.
 Local Open Scope nat_scope.
 
@@ -27,10 +28,7 @@ Print Assumptions Mds_center_is_JMJ.
 Theorem Mds_center_is_JMJ_Qc :
   forall (n : nat) (M : mat Qc), n <> 0 -> msym n M ->
     meq n n (center_matrix n M) (double_center n M).
-Proof.
-  intros n M Hn HM. apply (@center_is_JMJ Qc QcOps QcField n M); [|assumption].
-  apply Qc_of_nat_neq0. assumption.
-Qed.
+Proof. exact center_is_JMJ_Qc. Qed.
 Print Assumptions Mds_center_is_JMJ_Qc.
 
 Example Mds_center_is_JMJ_nonvacuous :
@@ -45,14 +43,22 @@ Qed.
 
 (* 2. the executable list models compute exactly the matrices the theorems are about *)
 Theorem Mds_exec_models_ok :
-  forall (F : Type) (Fo : FieldOps F) (Ff : IsField F) (n : nat) (L : list (list F)),
+  forall (F : Type) (Fo : FieldOps F) (n : nat) (L : list (list F)),
     mds_matrix_exec n L = mtab n n (mds_matrix n (mof L)) /\
     kpca_matrix_exec n L = mtab n n (kpca_matrix n (mof L)) /\
-    center_exec n L = mtab n n (center_matrix n (mof L)).
-Proof.
-  intros. split; [apply mds_matrix_exec_ok|split; [apply kpca_matrix_exec_ok|apply center_exec_ok]].
-Qed.
+    center_exec n L = mtab n n (center_matrix n (mof L)) /\
+    isomap_matrix_exec n L = mtab n n (isomap_matrix n (mof L)).
+Proof. exact @exec_models_ok. Qed.
 Print Assumptions Mds_exec_models_ok.
+
+(* the extracted "mathematical object" used by the check as the spec of the matrix stage *)
+Theorem Mds_spec_exec_ok :
+  forall (n : nat) (L : list (list Qc)),
+    c05_spec_kpca n L = mtab n n (double_center n (mof L)) /\
+    c05_spec_mds n L =
+      mtab n n (mscale neg_half (double_center n (fun i j => (mof L i j * mof L i j)%Qc))).
+Proof. exact spec_exec_ok. Qed.
+Print Assumptions Mds_spec_exec_ok.
 
 (* 3. what MDS hands to the solver is -1/2 J D2 J; what KPCA hands over is J K J *)
 Theorem Mds_matrix_is_JD2J :
@@ -268,3 +274,214 @@ Theorem Mds_select_smallest_cols :
   forall N d skip, d + skip <= N -> eval_ops d skip N (b_cols b) = Some (skip, d).
 Proof. exact select_smallest_cols. Qed.
 Print Assumptions Mds_select_smallest_cols.
+
+(* ====================================================================== *)
+(*  Round 2 additions                                                      *)
+(* ====================================================================== *)
+
+(* 11. DESIGN 1.4: what the two solver front-ends SEE of the matrix they are handed
+       (dense: read_lower((M+M^T)/2); randomized: selfadjointView<Upper>) is -1/2 J D2 J
+       (resp. J K J): nothing is lost to a triangle. *)
+Theorem Mds_solver_sees_mds :
+  forall (F : Type) (Fo : FieldOps F) (Ff : IsField F) (n : nat) (dist : mat F),
+    of_nat n <> 0%F -> two <> 0%F ->
+    meq n n (seen_dense (mds_matrix n dist))
+            (mscale neg_half (double_center n (dist_sq_matrix dist))) /\
+    meq n n (seen_randomized (mds_matrix n dist))
+            (mscale neg_half (double_center n (dist_sq_matrix dist))).
+Proof. exact @solver_sees_mds. Qed.
+Print Assumptions Mds_solver_sees_mds.
+
+Theorem Mds_solver_sees_kpca :
+  forall (F : Type) (Fo : FieldOps F) (Ff : IsField F) (n : nat) (kern : mat F),
+    of_nat n <> 0%F -> two <> 0%F ->
+    meq n n (seen_dense (kpca_matrix n kern)) (double_center n (kernel_matrix kern)) /\
+    meq n n (seen_randomized (kpca_matrix n kern)) (double_center n (kernel_matrix kern)).
+Proof. exact @solver_sees_kpca. Qed.
+Print Assumptions Mds_solver_sees_kpca.
+
+Example Mds_solver_sees_nonvacuous : @of_nat Qc _ 4 <> 0%F /\ @two Qc _ <> 0%F.
+Proof. split; [apply Qc_of_nat_neq0; lia|apply Qc_two_neq0]. Qed.
+
+(* 12. the EXECUTABLE post-processing (the function the tie runs), driven by the generated
+       selection table: for every `largest` dense site, all N, d <= N, all oracle answers *)
+Theorem Mds_embed_exec_largest :
+  forall (F : Type) (Fo : FieldOps F) (b : branch) (N d : nat)
+         (V : list (list F)) (lam sall : list F),
+    In b eig_table -> b_largest b = true -> b_base b = BaseN -> d <= N ->
+    embed_exec b N d 0 V lam sall =
+      Some (mtab N d (scale_cols (select_cols N (mof V) (N - d, d))
+                                 (select_vals (vof sall) (N - d, d)))) /\
+    embed_vals_exec b N d 0 lam = Some (vtab d (select_vals (vof lam) (N - d, d))).
+Proof. exact @embed_exec_largest. Qed.
+Print Assumptions Mds_embed_exec_largest.
+
+(* 13. sqrt scaling with an arbitrary radicand mu (mu = lambda: code before fixes/F35,
+       mu = max(lambda,0): after) *)
+Theorem Mds_sqrt_scaling_gen :
+  forall (F : Type) (Fo : FieldOps F) (Ff : IsField F) (n d : nat) (B Vs : mat F)
+         (lam mu s : vec F),
+    eig_contract n d B Vs lam ->
+    (forall c, c < d -> (s c * s c)%F = mu c) ->
+    let Y := scale_cols Vs s in
+    meq d d (mmul n (mtrans Y) Y) (mdiag mu) /\
+    meq n d (mmul n B Y) (mmul d Y (mdiag lam)) /\
+    (forall i j, mmul d Y (mtrans Y) i j =
+                 mmul d (mmul d Vs (mdiag mu)) (mtrans Vs) i j).
+Proof. exact @sqrt_scaling_gen. Qed.
+Print Assumptions Mds_sqrt_scaling_gen.
+
+(* the executable model composed with the contracts: the property's clauses for the embedding
+   the model returns (optimality cited -> _partial) *)
+Theorem Mds_embed_exec_factor_partial :
+  forall (F : Type) (Fo : FieldOps F) (Ff : IsField F) (b : branch) (N d : nat) (B : mat F)
+         (V : list (list F)) (lam mu sall : list F),
+    In b eig_table -> b_largest b = true -> b_base b = BaseN -> d <= N ->
+    full_contract N B (mof V) (vof lam) ->
+    (forall t, t < N -> (vof sall t * vof sall t)%F = vof mu t) ->
+    exists Y, embed_exec b N d 0 V lam sall = Some Y /\
+              meq d d (mmul N (mtrans (mof Y)) (mof Y))
+                      (mdiag (select_vals (vof mu) (N - d, d))) /\
+              meq N d (mmul N B (mof Y))
+                      (mmul d (mof Y) (mdiag (select_vals (vof lam) (N - d, d)))).
+Proof. exact @embed_exec_factor_partial. Qed.
+Print Assumptions Mds_embed_exec_factor_partial.
+
+Definition ex4_Vl : list (list Qc) := mtab 4 4 (mtrans ex4_V).
+Definition ex4_laml : list Qc := [qz 0; qz 0; qz 0; qz 4].
+Definition ex4_sl : list Qc := [qz 0; qz 0; qz 0; qz 2].
+
+Example Mds_embed_exec_nonvacuous :
+  (exists b, In b eig_table /\ b_largest b = true /\ b_base b = BaseN) /\
+  full_contract 4 (mds_matrix 4 ex4_dist) (mof ex4_Vl) (vof ex4_laml) /\
+  (forall t, t < 4 -> (vof ex4_sl t * vof ex4_sl t)%F = vof ex4_laml t) /\
+  match c05_embed 0 4 1 0 ex4_Vl ex4_laml ex4_sl with
+  | Some Y => mlist_eqb Y [[qz 1]; [qz (-1)]; [qz 1]; [qz (-1)]]
+  | None => false
+  end = true.
+Proof.
+  split; [eexists; split; [left; reflexivity|split; reflexivity]|].
+  split; [split; apply meq_by_compute; vm_compute; reflexivity|].
+  split.
+  - intros t Ht. destruct t as [|[|[|[|t]]]]; try lia; apply Qc_is_canon; vm_compute; reflexivity.
+  - vm_compute. reflexivity.
+Qed.
+
+(* 14. the clamp: with s_c^2 = max(lambda_c, 0) the clauses hold for the CLAMPED eigenvalues,
+       also when a retained eigenvalue is negative (Y Y^T is then the positive semi-definite
+       truncation Vs diag(max(lambda,0)) Vs^T) *)
+Theorem Mds_sqrt_scaling_clamped :
+  forall (n d : nat) (B Vs : mat Qc) (lam s : vec Qc),
+    eig_contract n d B Vs lam ->
+    (forall c, c < d -> (s c * s c)%Qc = qmax0 (lam c)) ->
+    let Y := scale_cols Vs s in
+    factor_spec n d B Y (clamp0 lam) /\
+    (forall i j, mmul d Y (mtrans Y) i j =
+                 mmul d (mmul d Vs (mdiag (clamp0 lam))) (mtrans Vs) i j).
+Proof. exact sqrt_scaling_clamped_Qc. Qed.
+Print Assumptions Mds_sqrt_scaling_clamped.
+
+(* negative retained eigenvalue: B = diag(-1, 4), both columns kept, sqrt answers (0, 2) *)
+Definition exn_B : mat Qc := mof [[qz (-1); qz 0]; [qz 0; qz 4]].
+Definition exn_lam : vec Qc := vof [qz (-1); qz 4].
+Definition exn_s : vec Qc := vof [qz 0; qz 2].
+Example Mds_sqrt_scaling_clamped_nonvacuous :
+  eig_contract 2 2 exn_B mI exn_lam /\
+  (forall c, c < 2 -> (exn_s c * exn_s c)%Qc = qmax0 (exn_lam c)).
+Proof.
+  split; [split; apply meq_by_compute; vm_compute; reflexivity|].
+  intros c Hc. destruct c as [|[|c]]; try lia; apply Qc_is_canon; vm_compute; reflexivity.
+Qed.
+
+Theorem Mds_recovers_euclidean_clamped_partial :
+  forall (N d : nat) (V : mat Qc) (Lam s : vec Qc) (dist : mat Qc),
+    d <= N ->
+    full_contract N (mds_matrix N dist) V Lam ->
+    meq N N (mmul N V (mtrans V)) mI ->
+    (forall t, t < N - d -> Lam t = Q2Qc 0) ->
+    (forall c, c < d -> (0 <= Lam (N - d + c)%nat)%Qc) ->
+    (forall c, c < d -> (s c * s c)%Qc = qmax0 (Lam (N - d + c)%nat)) ->
+    (forall i, i < N -> dist i i = Q2Qc 0) ->
+    let Y := scale_cols (select_cols N V (N - d, d)) s in
+    forall i j, i < N -> j < N -> i <= j ->
+      sqdist d Y i j = (dist i j * dist i j)%Qc.
+Proof. exact mds_recovers_euclidean_clamped_partial_Qc. Qed.
+Print Assumptions Mds_recovers_euclidean_clamped_partial.
+
+(* 15. randomized front-end (range finder + small eigenproblem), exact arithmetic: when the
+       orthonormal block Y captures the range of B (what rank <= target_dimension buys), the
+       answer (Y W, Theta) meets the same contract as the dense solver's answer *)
+Theorem Mds_randomized_exact_on_captured_range :
+  forall (F : Type) (Fo : FieldOps F) (Ff : IsField F) (N k : nat) (B Y W : mat F) (Theta : vec F),
+    meq k k (mmul N (mtrans Y) Y) mI ->
+    meq N N (mmul N (mmul k Y (mtrans Y)) B) B ->
+    eig_contract k k (mmul N (mtrans Y) (mmul N B Y)) W Theta ->
+    eig_contract N k B (mmul k Y W) Theta.
+Proof. exact @randomized_exact_on_captured_range. Qed.
+Print Assumptions Mds_randomized_exact_on_captured_range.
+
+Example Mds_randomized_nonvacuous :
+  meq 1 1 (mmul 2 (mtrans ex_Vs) ex_Vs) mI /\
+  meq 2 2 (mmul 2 (mmul 1 ex_Vs (mtrans ex_Vs)) ex_B) ex_B /\
+  eig_contract 1 1 (mmul 2 (mtrans ex_Vs) (mmul 2 ex_B ex_Vs)) mI ex_lam.
+Proof.
+  split; [apply meq_by_compute; vm_compute; reflexivity|].
+  split; [apply meq_by_compute; vm_compute; reflexivity|].
+  split; apply meq_by_compute; vm_compute; reflexivity.
+Qed.
+
+(* 16. Isomap with k = N-1 is MDS.  Graph side: in the complete neighbourhood graph of a metric
+       table the shortest-path weight is the direct distance (definitions of C04's
+       Dijkstra_Spec.v; proof self-contained).  Matrix side: then Isomap's matrix is MDS's. *)
+Theorem Mds_complete_metric_sp :
+  forall (nbrs : list (list nat)) (w : nat -> nat -> Z) (N : nat),
+    complete_graph nbrs N -> metric_w w N ->
+    forall i j o, i < N -> j < N -> is_sp nbrs w i j o -> o = Some (w i j).
+Proof.
+  exact (fun nbrs w N Hc Hm i j o => complete_metric_sp_unique nbrs w N Hc Hm i j o).
+Qed.
+Print Assumptions Mds_complete_metric_sp.
+
+Theorem Mds_isomap_k_full :
+  forall (nbrs : list (list nat)) (w : nat -> nat -> Z) (N : nat) (G : mat Qc),
+    complete_graph nbrs N ->
+    metric_w w N ->
+    (forall i j, i < N -> j < N -> w i j = w j i) ->
+    (forall i j, i < N -> j < N ->
+       exists o, is_sp nbrs w i j o /\
+                 match o with Some g => G i j = qz g | None => False end) ->
+    meq N N (isomap_matrix N G) (mds_matrix N (fun i j => qz (w i j))).
+Proof. exact isomap_k_full_Qc. Qed.
+Print Assumptions Mds_isomap_k_full.
+
+(* three points 0, 1, 3 on a line, every vertex lists the two others *)
+Example Mds_isomap_k_full_nonvacuous :
+  complete_graph ex3_nbrs 3 /\ metric_w ex3_w 3 /\
+  (forall i j, i < 3 -> j < 3 -> ex3_w i j = ex3_w j i).
+Proof. exact ex3_ok. Qed.
+
+(* 17. the boolean decision procedures run by the check decide the specifications *)
+Theorem Mds_factor_spec_decision :
+  forall n d tol (B Y : list (list Qc)) (lam : list Qc),
+    c05_factor n d tol B Y lam = Some true ->
+    factor_spec_tol n d tol (mof B) (mof Y) (vof lam).
+Proof. exact factor_spec_tol_b_ok. Qed.
+Print Assumptions Mds_factor_spec_decision.
+
+Theorem Mds_factor_spec_decision_exact :
+  forall n d (B Y : list (list Qc)) (lam : list Qc),
+    c05_factor n d (Q2Qc 0) B Y lam = Some true ->
+    factor_spec n d (mof B) (mof Y) (vof lam).
+Proof. exact factor_spec_exact_b_ok. Qed.
+Print Assumptions Mds_factor_spec_decision_exact.
+
+Theorem Mds_dist_decision :
+  forall n d tol (Y D2 : list (list Qc)),
+    c05_dist n d tol Y D2 = Some true -> within n n tol (sqdist d (mof Y)) (mof D2).
+Proof. exact dist_reproduced_tol_b_ok. Qed.
+Print Assumptions Mds_dist_decision.
+
+Example Mds_decisions_nonvacuous :
+  c05_factor 2 1 (Q2Qc 0) [[qz 1; qz (-1)]; [qz (-1); qz 1]] [[qz 1]; [qz (-1)]] [qz 2] = Some true /\
+  c05_dist 2 1 (Q2Qc 0) [[qz 1]; [qz (-1)]] [[qz 0; qz 4]; [qz 4; qz 0]] = Some true.
+Proof. split; vm_compute; reflexivity. Qed.
